@@ -67,7 +67,7 @@ let show_q (v : q option) = match v with
   | None -> "N"
   | Some x -> Printf.sprintf "%d/%d" (Win.int_of_z x.qnum) (int_of_pos x.qden)
 
-let handle (toks : string list) : string =
+let handle0 (toks : string list) : string =
   match Win.split_hash toks with
   | [mode] :: [ncols; nf] :: outs :: pred :: bind :: rows :: obs :: rest ->
       let nf = int_of_string nf in
@@ -126,5 +126,19 @@ let handle (toks : string list) : string =
                     and quiet = List.exists (fun o -> o = []) per_row in
                     if fired && quiet then "ok nt" else "ok"))
   | _ -> "bad line"
+
+(* If the implementation bound the predicate's aggregate calls differently from the model (a "wrong:..." bind
+   token), the implementation's output is still judged by the spec on the predicate as written: a wrong
+   binding that changes a decision is reported with the failing input, not only as a disagreement. *)
+let handle (toks : string list) : string =
+  match Win.split_hash toks with
+  | m :: c :: outs :: pred :: bind :: rest when List.exists (fun b -> b <> "b" && b <> "t") bind ->
+      let bind' = List.map (fun b -> if b = "b" || b = "t" then b else "t") bind in
+      let sections = m :: c :: outs :: pred :: bind' :: rest in
+      let toks' = List.concat (List.mapi (fun i s -> if i = 0 then s else "#" :: s) sections) in
+      let v = handle0 toks' in
+      if String.length v >= 4 && String.sub v 0 4 = "chk " then v ^ " (and model differs: trigger_calls " ^ String.concat " " bind ^ ")"
+      else "diff trigger_calls " ^ String.concat " " bind
+  | _ -> handle0 toks
 
 let () = Registry.register "C17" handle
